@@ -435,6 +435,60 @@ def r8(p, rep):
                     continue
             rep.add("C01.R8", key, site, ok, f"{what} receives an axis derived from the `axis` parameter" if ok else f"{what} is applied to the operand without the `axis` the lowering was asked for (`{norm(c)[:70]}`): it works over all elements instead of per slice, so the loop iterations are no longer independent (e.g. one global maximum in softmax)")
 
+def _selector(fnode, value, depth=0):
+    """which element of a collection of concatenated axes is taken: 'first' / 'last' / other description / None"""
+    if depth > 3:
+        return None
+
+    def mentions_concat(e):
+        if any(isinstance(x, ast.Attribute) and x.attr == "ConcatenatedAxis" or isinstance(x, ast.Name) and x.id == "ConcatenatedAxis" for x in ast.walk(e)):
+            return True
+        for x in ast.walk(e):
+            if isinstance(x, ast.Name):
+                for a in walk_no_nested(fnode):
+                    if isinstance(a, ast.Assign) and any(isinstance(t, ast.Name) and t.id == x.id for t in a.targets) and a.value is not e and any(isinstance(y, (ast.Attribute, ast.Name)) and norm(y).endswith("ConcatenatedAxis") for y in ast.walk(a.value)):
+                        return True
+        return False
+
+    if isinstance(value, ast.Subscript) and isinstance(value.slice, ast.Constant) and mentions_concat(value.value):
+        return {0: "first", -1: "last"}.get(value.slice.value, f"index {value.slice.value}")
+    if isinstance(value, ast.Subscript) and isinstance(value.slice, ast.UnaryOp) and isinstance(value.slice.op, ast.USub) and isinstance(value.slice.operand, ast.Constant) and mentions_concat(value.value):
+        return "last" if value.slice.operand.value == 1 else f"index -{value.slice.operand.value}"
+    if isinstance(value, ast.Call) and mentions_concat(value):
+        fn = norm(value.func)
+        if fn == "next":
+            inner = value.args[0] if value.args else None
+            if isinstance(inner, ast.Call) and norm(inner.func) == "reversed":
+                return "last"
+            return "first"
+        if fn.endswith(".popitem"):
+            return "last"
+        if fn.endswith(".pop"):
+            if value.args and isinstance(value.args[0], ast.Constant) and value.args[0].value == 0:
+                return "first"
+            return "last" if not value.args else None
+        if fn in ("min", "max"):
+            return fn
+    return None
+
+
+def r9(p, rep):
+    rep.rule("C01.R9", "splitting an expression at a concatenation and re-assembling it walk the concatenated axes in the same order", "T-SIB (the two directions of the decomposer pick the same axis)", floor=2)
+    cls = p.cls("Decomposer", "adapter.namedtensor_from_decomposednamedtensor")
+    picks = []
+    for m in cls.methods.values():
+        for a in walk_no_nested(m.node):
+            if isinstance(a, ast.Assign) and len(a.targets) == 1 and isinstance(a.targets[0], ast.Tuple) and len(a.targets[0].elts) == 2:
+                sel = _selector(m.node, a.value)
+                if sel is not None:
+                    picks.append((m, a, sel))
+    if len(picks) < 2:
+        raise AnalysisError(f"unrecognised idiom: expected the decomposer to pick a concatenated axis in both directions, found {len(picks)} site(s)")
+    ref = picks[0][2]
+    for m, a, sel in picks:
+        ok = sel == ref
+        rep.add("C01.R9", f"{m.qualname}:concatenated-axis-pick", f"{m.module.rel}:{a.lineno}", ok, f"takes the {sel} concatenated axis" if ok else f"{m.name} takes the {sel} concatenated axis of an expression, {picks[0][0].name} the {ref} one: with two concatenations in one expression ('(a + b) (c + d)') the pieces are produced in one nesting order and consumed in the other, so blocks end up swapped (silently when the block sizes allow the final reshape)")
+
 
 def run(p, rep, tier):
     r1(p, rep)
@@ -444,6 +498,7 @@ def run(p, rep, tier):
     r6(p, rep)
     r7(p, rep)
     r8(p, rep)
+    r9(p, rep)
     from . import c05, c14
 
     rep.rule("C05.R1", "merged transpose = inner permutation indexed by the outer permutation", "T-DER [S]", floor=1)
